@@ -365,7 +365,8 @@ func LoadReplay() (*Replay, error) {
 
 var journalMu sync.Mutex
 
-// Journal writes the case about to be executed.
+// Journal writes the case about to be executed. The file is kept open and
+// rewritten in place (two system calls), so journalling every case is cheap.
 func (r *Recorder) Journal(test string, c any) {
 	dir := os.Getenv("VERIF_JOURNAL_DIR")
 	if dir == "" {
@@ -377,22 +378,44 @@ func (r *Recorder) Journal(test string, c any) {
 	}
 	rp := Replay{Property: r.prop, Test: test, Message: "process died while executing this case", Case: b}
 	out, _ := json.Marshal(rp)
-	sh, _ := Shard()
 	journalMu.Lock()
-	_ = os.WriteFile(filepath.Join(dir, fmt.Sprintf("%s-%s-s%d.journal.json", r.prop, sanitize(test), sh)), out, 0o644)
-	journalMu.Unlock()
+	defer journalMu.Unlock()
+	f := r.journalFile(dir, test)
+	if f == nil {
+		return
+	}
+	_ = f.Truncate(0)
+	_, _ = f.WriteAt(out, 0)
 }
 
-// JournalDone removes the journal entry (the case finished).
+var journalFiles = map[string]*os.File{}
+
+func (r *Recorder) journalFile(dir, test string) *os.File {
+	sh, _ := Shard()
+	name := filepath.Join(dir, fmt.Sprintf("%s-%s-s%d.journal.json", r.prop, sanitize(test), sh))
+	if f, ok := journalFiles[name]; ok {
+		return f
+	}
+	f, err := os.OpenFile(name, os.O_CREATE|os.O_RDWR, 0o644)
+	if err != nil {
+		return nil
+	}
+	journalFiles[name] = f
+	return f
+}
+
+// JournalDone empties the journal entry (the case finished); the driver
+// ignores empty journals.
 func (r *Recorder) JournalDone(test string) {
 	dir := os.Getenv("VERIF_JOURNAL_DIR")
 	if dir == "" {
 		return
 	}
-	sh, _ := Shard()
 	journalMu.Lock()
-	_ = os.Remove(filepath.Join(dir, fmt.Sprintf("%s-%s-s%d.journal.json", r.prop, sanitize(test), sh)))
-	journalMu.Unlock()
+	defer journalMu.Unlock()
+	if f := r.journalFile(dir, test); f != nil {
+		_ = f.Truncate(0)
+	}
 }
 
 // ---------------------------------------------------------------------------
